@@ -50,7 +50,8 @@ WRAPPER_FORMS = {
 # canonical bodies of the ProductSpaceUfuncs wrappers (wrap_ufunc_productspace), as of /repo
 # 2fbe3b2: the out= branches of the (1,1) and (2,1) wrappers check the number of parts of `out`
 # BEFORE the loop (the model's psMapInto has that check; the older bodies without it are
-# deliberately NOT accepted any more)
+# deliberately NOT accepted any more); as of 1021b41 the (1,2) wrapper also accepts the
+# out=(out1, out2) form it passes to its parts (model: twoOutArgs)
 POWER_WRAPPER_FORMS = {
     ("if out is None:\n"
      "    result = [getattr(x.ufuncs, name)(**kwargs) for x in self.elem]\n"
@@ -62,13 +63,15 @@ POWER_WRAPPER_FORMS = {
      "    for x, out_x in zip(self.elem, out):\n"
      "        getattr(x.ufuncs, name)(out=out_x, **kwargs)\n"
      "    return out"): ('PLegacyRule.mapOrInto', 'self, out=None, **kwargs'),
-    ("if out1 is None:\n"
+    ("if out is not None:\n"
+     "    out1, out2 = out\n"
+     "if out1 is None:\n"
      "    out1 = self.elem.space.element()\n"
      "if out2 is None:\n"
      "    out2 = self.elem.space.element()\n"
      "for x, out1_x, out2_x in zip(self.elem, out1, out2):\n"
      "    getattr(x.ufuncs, name)(out=(out1_x, out2_x), **kwargs)\n"
-     "return (out1, out2)"): ('PLegacyRule.twoOut', 'self, out1=None, out2=None, **kwargs'),
+     "return (out1, out2)"): ('PLegacyRule.twoOut', 'self, out1=None, out2=None, out=None, **kwargs'),
     ("if x2 in self.elem.space:\n"
      "    if out is None:\n"
      "        result = [getattr(x.ufuncs, name)(x2p, **kwargs) for x, x2p in "
